@@ -24,6 +24,8 @@ structure Obs where
   bad : Nat
   net : String
   tag : String
+  /-- expected token offsets of the profile (ns after its first token), from a separate copy of the schedule -/
+  offs : List Int := []
   seqs : List (List Entry)
 deriving Repr
 
@@ -36,7 +38,51 @@ structure Input where
   /-- slowest scripted response, ns -/
   maxResp : Int
   cancelled : Bool
+  /-- every instance has its own copy of the profile (`rps-per-instance`) -/
+  perInst : Bool := false
 deriving Repr
+
+/-- what the pandora process left in its phout file (mode=proc) -/
+structure ProcObs where
+  rc : String
+  total : Nat
+  fired : Nat
+  disc : Nat
+  bad : Nat
+  served : Nat
+deriving Repr
+
+/-- mode=proc: `given` = what the pool section of the config says about discard_overflow. With one instance, all tokens
+at the start and a target slower than 2 s / 3 per answer, the fourth and later tokens are more than 2 s late whatever the
+machine load is: a run with discard_overflow on (`effectiveDiscard given`) must contain a discarded sample (tag and net code
+both right), one with it off none, and every token must show up exactly once. -/
+def judgeProc (given : Option Bool) (o : ProcObs) : String :=
+  if o.rc != "0" then s!"skip:pandora-process-did-not-finish-normally-rc={o.rc}"
+  else if effectiveDiscard given then
+    if o.bad > 0 then s!"fail:discard-sample:bad={o.bad}"
+    else if o.disc == 0 then s!"fail:late-fired:no discarded sample although discard_overflow is on by default or explicitly; fired={o.fired}"
+    else if o.fired + o.disc != o.total then s!"fail:lost-token:fired={o.fired},discarded={o.disc},total={o.total}"
+    else "ok"
+  else
+    if o.disc > 0 then s!"fail:discard-off:discarded={o.disc}"
+    else if o.fired != o.total then s!"fail:not-all-fired:fired={o.fired},total={o.total}"
+    else "ok"
+
+def sortInts (l : List Int) : List Int := l.mergeSort (fun a b => decide (a ≤ b))
+
+/-- tokens of a group of entries relative to the earliest one, sorted -/
+def relToks (es : List Entry) : List Int :=
+  let ts := sortInts (es.map (·.tok))
+  match ts with
+  | [] => []
+  | t0 :: _ => ts.map (· - t0)
+
+/-- the tokens handed out are exactly the tokens of the profile (none lost, none twice): for a shared schedule over all
+instances together, for per-instance schedules for every instance -/
+def tokenSetOk (i : Input) (o : Obs) : Bool :=
+  let want := sortInts o.offs
+  if i.perInst then o.seqs.all (fun s => relToks s == want)
+  else relToks (o.seqs.flatMap id) == want
 
 def allEntries (o : Obs) : List Entry := o.seqs.flatMap id
 
@@ -55,9 +101,16 @@ def judge (i : Input) (o : Obs) : String :=
   match acted.find? (fun e => e.ret < e.tok) with
   | some e => s!"fail:early:{render e}"
   | none =>
+  -- the run is measured from its first token (engine start-up before it is not part of the claim)
+  let start := ((sortInts (es.map (·.tok))).head?).getD 0
+  let runLen := o.endT - start
+  let complete := i.mode == "engine" && !i.cancelled && o.err == "nil"
   if i.discard then
     match acted.find? (fun e => e.dec == 'F' && e.pick - e.tok ≥ maxOverdue) with
-    | some e => s!"fail:late-fired:picked up {(e.pick - e.tok) / 1000000} ms late, fired; {render e}"
+    | some e =>
+      -- `IsSlowDown` answers false on a done context: in a cancelled run such a shot is outside the property's quantifier
+      if i.cancelled then "skip:late-token-fired-in-a-cancelled-run"
+      else s!"fail:late-fired:picked up {(e.pick - e.tok) / 1000000} ms late, fired; {render e}"
     | none =>
     match acted.find? (fun e => e.dec == 'D' && e.ret - e.tok < maxOverdue) with
     | some e => s!"fail:fresh-discarded:{(e.ret - e.tok) / 1000000} ms late, discarded; {render e}"
@@ -65,11 +118,13 @@ def judge (i : Input) (o : Obs) : String :=
     if i.mode == "engine" && countDec o 'D' > 0 && (o.net != toString discardNetCode || o.tag != discardTag || o.bad > 0) then
       s!"fail:discard-sample:net={o.net},tag={o.tag},bad={o.bad}"
     else if o.bad > 0 then s!"fail:discard-sample:bad={o.bad}"
-    else if i.mode == "engine" && !i.cancelled && o.err == "nil" && countDec o 'F' + countDec o 'D' != o.total then
+    else if complete && countDec o 'F' + countDec o 'D' != o.total then
       s!"fail:lost-token:fired={countDec o 'F'},discarded={countDec o 'D'},total={o.total}"
-    else if i.mode == "engine" && !i.cancelled && o.endT > i.profDur + maxOverdue + i.maxResp + boundFail then
-      s!"fail:run-bound:end={o.endT / 1000000}ms,bound={(i.profDur + maxOverdue + i.maxResp) / 1000000}ms"
-    else if i.mode == "engine" && !i.cancelled && o.endT > i.profDur + maxOverdue + i.maxResp + boundMargin then
+    else if complete && !tokenSetOk i o then
+      s!"fail:lost-token:the tokens acted on are not the tokens of the profile"
+    else if i.mode == "engine" && !i.cancelled && runLen > i.profDur + maxOverdue + i.maxResp + boundFail then
+      s!"fail:run-bound:length={runLen / 1000000}ms,bound={(i.profDur + maxOverdue + i.maxResp) / 1000000}ms"
+    else if i.mode == "engine" && !i.cancelled && runLen > i.profDur + maxOverdue + i.maxResp + boundMargin then
       "skip:inconclusive-run-length"
     else "ok"
   else
@@ -77,6 +132,8 @@ def judge (i : Input) (o : Obs) : String :=
     else if o.bad > 0 then s!"fail:discard-sample:bad={o.bad}"
     else if !i.cancelled && o.err == "nil" && countDec o 'F' != o.total then
       s!"fail:not-all-fired:fired={countDec o 'F'},total={o.total}"
+    else if complete && !tokenSetOk i o then
+      s!"fail:not-all-fired:the tokens fired are not the tokens of the profile"
     else "ok"
 
 end Pandora.Spec.C04
